@@ -354,3 +354,45 @@ SUBS = [
     Sub('table_product', check, enumerate=enum_cases, exhaustive=True),
     Sub('random_outputs', check, strategy=strategy, budget={'quick': 1200, 'thorough': 40000}),
 ]
+
+
+# ---- sub-process differential: the OS-level exit code and streams equal the in-process observation -----------
+def check_subprocess(case) -> Verdict:
+    text, argv = build(case)
+    mode = case['mode']
+    obs = []
+    for how in ('inproc', 'subproc'):
+        with driver.Workspace() as ws:
+            ws.write('t.case', text)
+            ws.probe_cfg('act', exit=case['code'], stdout=case['out'], stderr=case['err'])
+            r = driver.run_inproc(ws, argv) if how == 'inproc' else driver.run_subproc(ws, argv)
+            root = ws.root
+        norm = lambda s: s.replace(root, '<WS>')
+        import re as _re
+        out = _re.sub(r'exactly-[A-Za-z0-9_]+', 'exactly-XXXX', norm(r.out))
+        err = _re.sub(r'exactly-[A-Za-z0-9_]+', 'exactly-XXXX', norm(r.err))
+        obs.append({'exit': r.exit_code, 'out': out, 'err': err, 'timed_out': r.timed_out})
+    labels = ['subproc', 'mode:' + mode, 'ending:' + ENDINGS[case['ending']][0]]
+    key = 'sub|%s|%s|%s|%d' % (case['status'], case['ending'], mode, case['code'])
+    if obs[1]['timed_out']:
+        return Verdict(inconclusive=True, labels=labels)
+    a, b = obs
+    # usage errors: argparse prints the program name, which differs between the two ways of starting
+    if ENDINGS[case['ending']][0] == 'USAGE':
+        same = a['exit'] == b['exit'] == USAGE_EXIT and b['out'] == ''
+    else:
+        same = (a['exit'], a['out'], a['err']) == (b['exit'], b['out'], b['err'])
+    if not same:
+        return fail('subprocess-differs/%s/%s' % (mode, ENDINGS[case['ending']][0]),
+                    {'case_text': text, 'argv': argv, 'inproc': a, 'subproc': b}, labels=labels, nontrivial=True,
+                    key=key)
+    return Verdict(True, nontrivial=True, key=key, labels=labels)
+
+
+def enum_subprocess(tier):
+    cases = list(enum_cases('quick'))
+    step = 47 if tier == 'quick' else 3
+    return [c for i, c in enumerate(cases) if i % step == 0]
+
+
+SUBS.append(Sub('subprocess_differential', check_subprocess, enumerate=enum_subprocess, exhaustive=False))
